@@ -605,20 +605,20 @@ Section Gated.
   Lemma gexec_ungated c s o :
     decision_id del_id c o = None ->
     match gexec c s o with
-    | Halt (s', f, ns) => box s' = box s /\ ns = []
+    | Halt (s', f, ns) => box s' = box s /\ alphabet s' = alphabet s /\ ns = []
     | Fault => True
     end.
   Proof.
     intros Hd. destruct o as [cid user amount lockAcc|uid keys|sid key val|key|key|amount];
       cbn [decision_id] in Hd; try discriminate; cbn [NeoFSVote.gexec].
     - destruct (existsb (bytes_eqb key) (witnessed c)) eqn:Ew; [|discriminate].
-      unfold check_witness. rewrite Ew. destruct (_ || _); cbn [obind]; [|exact I]. split; reflexivity.
+      unfold check_witness. rewrite Ew. destruct (_ || _); cbn [obind]; [|exact I]. repeat split; reflexivity.
     - repeat match goal with
              | |- context [obind ?x _] => destruct x as [?|]; cbn [obind]; [|exact I]
              | |- context [let '(_, _) := ?x in _] => destruct x
              end.
-      split; reflexivity.
-    - destruct (oassert (0 <=? amount)); cbn [obind]; [|exact I]. split; reflexivity.
+      repeat split; reflexivity.
+    - destruct (oassert (0 <=? amount)); cbn [obind]; [|exact I]. repeat split; reflexivity.
   Qed.
 End Gated.
 
@@ -791,4 +791,720 @@ Proof.
   destruct (n <? threshold a).
   - injection Hc as <-. auto.
   - destruct (remove_votes bs1 id); cbn [obind] in Hc; discriminate.
+Qed.
+
+(** * 10. Histories: the stored ballots refine the tally *)
+
+Fixpoint end_height (h0 : Z) (ops : list (nctx * nop)) : Z :=
+  match ops with [] => h0 | co :: rest => end_height (height (fst co)) rest end.
+
+Lemma end_height_snoc h0 ops co : end_height h0 (ops ++ [co]) = height (fst co).
+Proof. revert h0. induction ops as [|x r IH]; intros h0; [reflexivity|]. cbn. apply IH. Qed.
+
+Lemma heights_from_app h0 ops co :
+  heights_from h0 (ops ++ [co]) <-> heights_from h0 ops /\ end_height h0 ops <= height (fst co).
+Proof.
+  revert h0. induction ops as [|x r IH]; intros h0; cbn; [tauto|]. rewrite IH. tauto.
+Qed.
+
+Lemma heights_from_end h0 ops : heights_from h0 ops -> h0 <= end_height h0 ops.
+Proof.
+  revert h0. induction ops as [|x r IH]; intros h0; cbn; [lia|]. intros [H1 H2].
+  specialize (IH _ H2). lia.
+Qed.
+
+Lemma heights_from_elem h0 ops co :
+  heights_from h0 ops -> co ∈ ops -> height (fst co) <= end_height h0 ops.
+Proof.
+  revert h0. induction ops as [|x r IH]; intros h0 H Hin; [inversion Hin|].
+  cbn in H. destruct H as [H1 H2]. cbn [end_height]. apply elem_of_cons in Hin as [->|Hin].
+  - apply heights_from_end. exact H2.
+  - eauto.
+Qed.
+
+Section Run.
+  Variable valid_pub : bytes -> bool.
+  Variable std_acc : bytes -> bytes.
+  Variable del_id : bytes -> bytes.
+  Notation nstep := (nstep valid_pub std_acc del_id).
+  Notation tstep := (tstep valid_pub std_acc del_id).
+  Notation nrun_from := (nrun_from valid_pub std_acc del_id).
+  Notation trun_from := (trun_from valid_pub std_acc del_id).
+  Notation nexec := (nexec valid_pub std_acc del_id).
+
+  Lemma grun_snoc {B} (coll : list bytes -> B -> bytes -> bytes -> Z -> outcome (B * bool)) s ops co :
+    grun_from valid_pub std_acc del_id coll s (ops ++ [co])
+    = gstep_log valid_pub std_acc del_id coll (grun_from valid_pub std_acc del_id coll s ops) co.
+  Proof. unfold grun_from. rewrite fold_left_app. reflexivity. Qed.
+
+  Lemma nrun_snoc_state s ops co :
+    fst (nrun_from s (ops ++ [co])) = fst (fst (nstep (fst (nrun_from s ops)) co)).
+  Proof.
+    unfold NeoFSVote.nrun_from. rewrite grun_snoc. unfold gstep_log, NeoFSVote.nstep.
+    destruct (gstep _ _ _ _ _ co) as [[s' r] ns]. reflexivity.
+  Qed.
+
+  Definition nt_rel (h : Z) (s : nstate) (t : tstate) : Prop := st_rel (box_rel h) s t.
+
+  Lemma nt_rel_mono h h' s t : h <= h' -> nt_rel h s t -> nt_rel h' s t.
+  Proof. intros Hle [H1 H2]. split; [exact H1|eapply box_rel_mono; eauto]. Qed.
+
+  Lemma step_refines h c o s t :
+    nt_rel h s t -> h <= height c ->
+    nt_rel (height c) (fst (fst (nstep s (c, o)))) (fst (fst (tstep t (c, o)))) /\
+    snd (fst (nstep s (c, o))) = snd (fst (tstep t (c, o))) /\
+    snd (nstep s (c, o)) = snd (tstep t (c, o)).
+  Proof.
+    intros Hrel Hle. apply (nt_rel_mono _ _ _ _ Hle) in Hrel.
+    assert (Hc : forall a id k,
+               match collect a (box s) id k (height c), tcollect a (box t) id k (height c) with
+               | Halt (b1, g1), Halt (b2, g2) => box_rel (height c) b1 b2 /\ g1 = g2
+               | _, _ => False
+               end).
+    { intros a id k. apply collect_refines. apply Hrel. }
+    pose proof (gexec_sim valid_pub std_acc del_id collect tcollect (box_rel (height c)) c s t o Hrel Hc) as Hsim.
+    unfold NeoFSVote.nstep, Tally.tstep, gstep. cbn [fst snd].
+    destruct (gexec valid_pub std_acc del_id collect c s o) as [[[s' f1] n1]|];
+      destruct (gexec valid_pub std_acc del_id tcollect c t o) as [[[t' f2] n2]|];
+      cbn [res_rel] in Hsim; try contradiction; cbn [fst snd].
+    - destruct Hsim as (H1 & -> & ->). auto.
+    - auto.
+  Qed.
+
+  Lemma run_refines h0 s t ops :
+    nt_rel h0 s t -> heights_from h0 ops ->
+    snd (nrun_from s ops) = snd (trun_from t ops) /\
+    nt_rel (end_height h0 ops) (fst (nrun_from s ops)) (fst (trun_from t ops)).
+  Proof.
+    intros Hrel. induction ops as [|co ops IH] using rev_ind; intros Hh.
+    - cbn. auto.
+    - apply heights_from_app in Hh as [Hh Hle]. destruct (IH Hh) as [Hl Hr].
+      unfold NeoFSVote.nrun_from, Tally.trun_from in *. rewrite !grun_snoc. unfold gstep_log.
+      destruct co as [c o]. pose proof (step_refines _ c o _ _ Hr Hle) as (H1 & H2 & H3).
+      unfold NeoFSVote.nstep, Tally.tstep in *.
+      destruct (gstep valid_pub std_acc del_id collect _ (c, o)) as [[s' r1] n1].
+      destruct (gstep valid_pub std_acc del_id tcollect _ (c, o)) as [[t' r2] n2].
+      cbn [fst snd] in *. subst r2 n2. rewrite Hl, end_height_snoc. auto.
+  Qed.
+
+  Lemma init_rel h keys cfg g : nt_rel h (ninit keys cfg g) (tinit keys cfg g).
+  Proof.
+    split; [repeat split; reflexivity|]. split; [constructor|]. intros i. reflexivity.
+  Qed.
+
+  (** The relation that holds when the next invocation starts. *)
+  Lemma reach_rel h0 keys cfg g ops c o :
+    heights_from h0 (ops ++ [(c, o)]) ->
+    nt_rel (height c) (fst (nrun_from (ninit keys cfg g) ops)) (fst (trun_from (tinit keys cfg g) ops)).
+  Proof.
+    intros Hh. apply heights_from_app in Hh as [Hh Hle].
+    eapply nt_rel_mono; [exact Hle|]. apply run_refines; [apply init_rel|exact Hh].
+  Qed.
+End Run.
+
+(** * 11. One vote-gated invocation, against any tally box the stored list refines *)
+
+Lemma tcollect_go a tb id from h tb' go :
+  tcollect a tb id from h = Halt (tb', go) ->
+  go = negb (Z.of_nat (length (tally_incl tb id from h)) <? thr (Z.of_nat (length a))) /\
+  (go = true -> tb' id = None) /\
+  (go = false -> tlive tb' id h = tally_incl tb id from h).
+Proof.
+  unfold tcollect. intros H.
+  destruct (Z.of_nat (length (tally_incl tb id from h)) <? thr (Z.of_nat (length a))) eqn:E;
+    injection H as <- <-; (split; [reflexivity|]); split; try discriminate.
+  - intros _. unfold tally_incl.
+    destruct (existsb (bytes_eqb from) (tlive tb id h)) eqn:Ex; [reflexivity|].
+    unfold tlive at 1, tupd. rewrite bytes_eqb_refl. cbn [tprune tlast tvoters].
+    replace (h - h >? 20) with false by lia. reflexivity.
+  - intros _. unfold tupd. rewrite bytes_eqb_refl. reflexivity.
+Qed.
+
+Lemma collect_fired_removed a bs id from h bs' :
+  NoDup (map bid bs) -> collect a bs id from h = Halt (bs', true) -> find_id id bs' = None.
+Proof.
+  intros Hnd Hc. unfold collect in Hc. destruct (vote bs id from h) as [bs1 n] eqn:Ev.
+  destruct (vote_spec id from h bs Hnd) as (bs1' & b' & Hv' & Hnd1 & Hf & _).
+  rewrite Ev in Hv'. injection Hv' as <- _.
+  destruct (n <? threshold a); [discriminate|].
+  rewrite (remove_votes_found _ _ _ Hf) in Hc. cbn [obind] in Hc. injection Hc as <-.
+  apply remove_first_find_same. exact Hnd1.
+Qed.
+
+Section Step.
+  Variable valid_pub : bytes -> bool.
+  Variable std_acc : bytes -> bytes.
+  Variable del_id : bytes -> bytes.
+  Notation nstep := (nstep valid_pub std_acc del_id).
+
+  (** The three outcomes of a vote-gated invocation. *)
+  Definition gated_outcome (c : nctx) (s : nstate) (tb : tbox) (o : nop) (id : bytes)
+             (s' : nstate) (r : option bool) (ns : list nnotif) : Prop :=
+    let n := Z.of_nat (length (alphabet s)) in
+    let T k := Z.of_nat (length (tally_incl tb id k (height c))) in
+    (* rejected *)
+    (r = None /\ s' = s /\ ns = [] /\
+     (alphabet_invoker valid_pub c s = Fault \/ args_ok valid_pub o = false \/
+      exists k, alphabet_invoker valid_pub c s = Halt k /\ thr n <= T k /\ action_ok c s o = false)) \/
+    (* counted, below the threshold *)
+    (r = Some false /\ ns = [] /\ same_but_box s' s /\
+     exists k, alphabet_invoker valid_pub c s = Halt k /\ args_ok valid_pub o = true /\ T k < thr n /\
+       stored_tally (box s') id (height c) = tally_incl tb id k (height c) /\
+       (k ∈ tlive tb id (height c) -> box s' = box s) /\
+       exists tb', tcollect (alphabet s) tb id k (height c) = Halt (tb', false) /\
+                   box_rel (height c) (box s') tb') \/
+    (* decided *)
+    (r = Some true /\ ns = notifs_of o /\ s' = effect c s (box s') o /\ find_id id (box s') = None /\
+     exists k, alphabet_invoker valid_pub c s = Halt k /\ args_ok valid_pub o = true /\ thr n <= T k /\
+       action_ok c s o = true /\
+       exists tb', tcollect (alphabet s) tb id k (height c) = Halt (tb', true) /\
+                   box_rel (height c) (box s') tb').
+
+  Lemma effect_box {B} c (s : gstate (B := B)) b o id :
+    decision_id del_id c o = Some id -> box (effect c s b o) = b.
+  Proof. destruct o; cbn; try discriminate; reflexivity. Qed.
+
+  Lemma nstep_gated c s tb o id :
+    decision_id del_id c o = Some id -> box_rel (height c) (box s) tb ->
+    gated_outcome c s tb o id (fst (fst (nstep s (c, o)))) (snd (fst (nstep s (c, o)))) (snd (nstep s (c, o))).
+  Proof.
+    intros Hd Hrel. unfold NeoFSVote.nstep, gstep. cbn [fst snd].
+    rewrite (gexec_gated _ _ _ collect c s o id Hd). unfold gated_nf, gated_outcome.
+    destruct (alphabet_invoker valid_pub c s) as [k|] eqn:Ek; cbn [obind fst snd].
+    2:{ left. repeat split; auto. }
+    destruct (args_ok valid_pub o) eqn:Ea; cbn [fst snd].
+    2:{ left. repeat split; auto. }
+    pose proof (collect_refines (alphabet s) (height c) (box s) tb id k Hrel) as Hc.
+    destruct (collect (alphabet s) (box s) id k (height c)) as [[b1 go]|] eqn:Ec;
+      destruct (tcollect (alphabet s) tb id k (height c)) as [[tb1 go']|] eqn:Et; try contradiction.
+    destruct Hc as [Hb <-]. cbn [obind]. destruct (tcollect_go _ _ _ _ _ _ _ Et) as (Hgo & Hfire & Hcnt).
+    destruct go; cbn [fst snd].
+    - assert (Hthr : thr (Z.of_nat (length (alphabet s))) <= Z.of_nat (length (tally_incl tb id k (height c)))) by lia.
+      destruct (action_ok c s o) eqn:Eo; cbn [fst snd].
+      + right. right. rewrite (effect_box c s b1 o id Hd).
+        split; [reflexivity|]. split; [reflexivity|]. split; [reflexivity|].
+        split; [eapply collect_fired_removed; [apply Hrel|exact Ec]|].
+        exists k. repeat split; auto. exists tb1. auto.
+      + left. repeat split; auto. right. right. exists k. auto.
+    - right. left. split; [reflexivity|]. split; [reflexivity|].
+      split; [unfold set_box, same_but_box; cbn; auto|].
+      exists k. split; [reflexivity|]. split; [reflexivity|]. split; [lia|].
+      cbn [set_box box]. split.
+      { unfold stored_tally. rewrite (tlive_eq _ _ _ id (proj2 Hb)). apply Hcnt. reflexivity. }
+      split.
+      { intros Hin. eapply collect_repeat_inert; [apply Hrel|exact Ec|].
+        unfold stored_tally. rewrite (tlive_eq _ _ _ id (proj2 Hrel)). exact Hin. }
+      exists tb1. auto.
+  Qed.
+End Step.
+
+(** * 12. Invariants along histories *)
+
+Section Inv.
+  Variable valid_pub : bytes -> bool.
+  Variable std_acc : bytes -> bytes.
+  Variable del_id : bytes -> bytes.
+  Notation nstep := (nstep valid_pub std_acc del_id).
+  Notation nrun_from := (nrun_from valid_pub std_acc del_id).
+
+  Lemma run_inv (Inv : nstate -> Prop) (Pop : nctx * nop -> Prop) s0 ops :
+    Inv s0 -> (forall s co, Inv s -> Pop co -> Inv (fst (fst (nstep s co)))) ->
+    Forall Pop ops -> Inv (fst (nrun_from s0 ops)).
+  Proof.
+    intros H0 Hstep. induction ops as [|co ops IH] using rev_ind; intros Hall; [exact H0|].
+    apply Forall_app in Hall as [Hall Hco]. rewrite Forall_singleton in Hco.
+    rewrite nrun_snoc_state. apply Hstep; [apply IH; exact Hall|exact Hco].
+  Qed.
+
+  (** The stored Alphabet list changes only by a decided [AlphabetUpdate]. *)
+  Lemma nstep_alphabet s c o :
+    alphabet (fst (fst (nstep s (c, o)))) = alphabet s \/
+    exists id ks, o = AlphabetUpdate id ks /\ alphabet (fst (fst (nstep s (c, o)))) = ks.
+  Proof.
+    unfold NeoFSVote.nstep, gstep. cbn [fst snd].
+    destruct (decision_id del_id c o) as [id|] eqn:Hd.
+    - rewrite (gexec_gated _ _ _ collect c s o id Hd). unfold gated_nf.
+      destruct (alphabet_invoker valid_pub c s) as [k|]; cbn [obind fst]; [|auto].
+      destruct (args_ok valid_pub o); cbn [fst]; [|auto].
+      destruct (collect (alphabet s) (box s) id k (height c)) as [[b1 go]|]; cbn [obind fst]; [|auto].
+      destruct go; cbn [fst]; [|auto].
+      destruct (action_ok c s o); cbn [fst]; [|auto].
+      destruct o; cbn; eauto.
+    - pose proof (gexec_ungated valid_pub std_acc del_id collect c s o Hd) as H.
+      destruct (gexec valid_pub std_acc del_id collect c s o) as [[[s' f] ns]|]; cbn [fst]; [|auto].
+      left. apply H.
+  Qed.
+
+  (** How the stored ballots evolve, ballot by ballot. *)
+  Lemma nstep_box_forall (Pb : ballot -> Prop) c o s :
+    Forall Pb (box s) ->
+    (forall id k vs,
+        decision_id del_id c o = Some id -> alphabet_invoker valid_pub c s = Halt k ->
+        vs = [k] \/ (exists cnd, cnd ∈ box s /\ Pb cnd /\ bid cnd = id /\ k ∉ voters cnd /\
+                                 expired (height c) cnd = false /\ vs = voters cnd ++ [k]) ->
+        Pb (mkBallot id vs (height c))) ->
+    Forall Pb (box (fst (fst (nstep s (c, o))))).
+  Proof.
+    intros Hall Hnew. unfold NeoFSVote.nstep, gstep. cbn [fst snd].
+    destruct (decision_id del_id c o) as [id|] eqn:Hd.
+    - rewrite (gexec_gated _ _ _ collect c s o id Hd). unfold gated_nf.
+      destruct (alphabet_invoker valid_pub c s) as [k|] eqn:Ek; cbn [obind fst]; [|exact Hall].
+      destruct (args_ok valid_pub o); cbn [fst]; [|exact Hall].
+      destruct (collect (alphabet s) (box s) id k (height c)) as [[b1 go]|] eqn:Ec; cbn [obind fst]; [|exact Hall].
+      assert (H1 : Forall Pb b1).
+      { eapply collect_forall; [exact Ec|exact Hall|]. intros vs Hvs. eapply Hnew; eauto. }
+      destruct go; cbn [fst]; [|exact H1].
+      destruct (action_ok c s o); cbn [fst]; [|exact Hall].
+      rewrite (effect_box del_id c s b1 o id Hd). exact H1.
+    - pose proof (gexec_ungated valid_pub std_acc del_id collect c s o Hd) as H.
+      destruct (gexec valid_pub std_acc del_id collect c s o) as [[[s' f] ns]|]; cbn [fst]; [|exact Hall].
+      destruct H as [-> _]. exact Hall.
+  Qed.
+
+  (** Every stored voter list is without repetition and made of keys that
+      were in the stored Alphabet list when they voted. *)
+  Definition voters_ok (U : bytes -> Prop) (b : ballot) : Prop :=
+    NoDup (voters b) /\ forall k, k ∈ voters b -> U k.
+
+  Definition updates_within (U : bytes -> Prop) (co : nctx * nop) : Prop :=
+    forall id ks, snd co = AlphabetUpdate id ks -> forall k, k ∈ ks -> U k.
+
+  Lemma run_voters (U : bytes -> Prop) keys cfg g ops :
+    (forall k, k ∈ keys -> U k) -> Forall (updates_within U) ops ->
+    let s := fst (nrun_from (ninit keys cfg g) ops) in
+    (forall k, k ∈ alphabet s -> U k) /\ Forall (voters_ok U) (box s).
+  Proof.
+    intros Hk Hops.
+    apply (run_inv (fun s => (forall k, k ∈ alphabet s -> U k) /\ Forall (voters_ok U) (box s))
+                   (updates_within U)); [split; [exact Hk|constructor]| |exact Hops].
+    intros s [c o] [Ha Hb] Hco. split.
+    - destruct (nstep_alphabet s c o) as [-> | (id & ks & -> & ->)]; [exact Ha|].
+      intros k Hin. eapply (Hco id ks); [reflexivity|exact Hin].
+    - apply nstep_box_forall; [exact Hb|]. intros id k vs _ Hinv Hvs.
+      apply (alphabet_invoker_member valid_pub) in Hinv as [Hmem _].
+      destruct Hvs as [-> | (cnd & _ & [Hn Hu] & _ & Hnin & _ & ->)]; split; cbn [voters].
+      + apply NoDup_singleton.
+      + intros x Hx. apply elem_of_list_singleton in Hx. subst x. auto.
+      + apply NoDup_app. split; [exact Hn|]. split; [|apply NoDup_singleton].
+        intros x Hx Hx'. apply elem_of_list_singleton in Hx'. subst x. contradiction.
+      + intros x Hx. apply elem_of_app in Hx as [Hx|Hx]; [auto|].
+        apply elem_of_list_singleton in Hx. subst x. auto.
+  Qed.
+
+  (** A history in which the list is never replaced by a different one. *)
+  Definition keeps_list (A : list bytes) (co : nctx * nop) : Prop :=
+    forall id ks, snd co = AlphabetUpdate id ks -> ks = A.
+
+  Lemma run_fixed_alphabet A cfg g ops :
+    Forall (keeps_list A) ops -> alphabet (fst (nrun_from (ninit A cfg g) ops)) = A.
+  Proof.
+    apply (run_inv (fun s => alphabet s = A) (keeps_list A)); [reflexivity|].
+    intros s [c o] Hs Hco. destruct (nstep_alphabet s c o) as [-> | (id & ks & -> & ->)]; [exact Hs|].
+    exact (Hco id ks eq_refl).
+  Qed.
+
+  Lemma keeps_list_within A co : keeps_list A co -> updates_within (fun k => k ∈ A) co.
+  Proof. intros H id ks Hs k Hk. rewrite (H id ks Hs) in Hk. exact Hk. Qed.
+
+  (** Every stored ballot was stamped by an invocation of the history that
+      voted for its id, at that invocation's height. *)
+  Definition stamped_by (ops : list (nctx * nop)) (b : ballot) : Prop :=
+    exists co, co ∈ ops /\ decision_id del_id (fst co) (snd co) = Some (bid b) /\
+               height (fst co) = bheight b.
+
+  Lemma run_stamped keys cfg g ops :
+    Forall (stamped_by ops) (box (fst (nrun_from (ninit keys cfg g) ops))).
+  Proof.
+    induction ops as [|[c o] ops IH] using rev_ind; [constructor|].
+    rewrite nrun_snoc_state. apply nstep_box_forall.
+    - eapply Forall_impl; [exact IH|]. intros b (co & H1 & H2). exists co. split; [|exact H2].
+      apply elem_of_app. auto.
+    - intros id k vs Hd _ _. exists (c, o). split; [apply elem_of_app; right; apply elem_of_list_singleton; reflexivity|].
+      cbn [fst snd bid bheight]. auto.
+  Qed.
+
+  (** No vote for [id] within the last 20 blocks: nothing stored counts. *)
+  Lemma stale_stored keys cfg g ops id h :
+    (forall co, co ∈ ops -> decision_id del_id (fst co) (snd co) = Some id -> h - height (fst co) > 20) ->
+    stored_tally (box (fst (nrun_from (ninit keys cfg g) ops))) id h = [].
+  Proof.
+    intros Hold. unfold stored_tally. rewrite tlive_abs.
+    destruct (find_id id _) as [b|] eqn:Ef; [|reflexivity].
+    apply find_id_some in Ef as [Hin Hb].
+    pose proof (run_stamped keys cfg g ops) as Hst. rewrite Forall_forall in Hst.
+    destruct (Hst b Hin) as (co & Hco & Hd & Hh). rewrite Hb in Hd.
+    specialize (Hold co Hco Hd). cbn [live_b]. unfold expired, block_diff.
+    replace (h - bheight b >? 20) with true by lia. reflexivity.
+  Qed.
+End Inv.
+
+(** * 13. With a fixed list the threshold is reached exactly, by a new vote *)
+
+Definition small (a : list bytes) (b : ballot) : Prop :=
+  Z.of_nat (length (voters b)) < threshold a.
+
+Lemma collect_exact a bs id from h bs' go :
+  NoDup (map bid bs) -> Forall (small a) bs -> collect a bs id from h = Halt (bs', go) ->
+  NoDup (map bid bs') /\ Forall (small a) bs' /\
+  (go = true -> from ∉ stored_tally bs id h /\
+                Z.of_nat (length (tally_incl (abs_box bs) id from h)) = threshold a).
+Proof.
+  intros Hnd Hsm Hc.
+  pose proof (collect_abs a h bs id from Hnd) as Habs. rewrite Hc in Habs.
+  destruct (tcollect a (abs_box bs) id from h) as [[tb' g2]|]; [|contradiction].
+  destruct Habs as [[Hnd' _] _]. split; [exact Hnd'|].
+  unfold collect in Hc. destruct (vote bs id from h) as [bs1 n] eqn:Ev.
+  destruct (vote_spec id from h bs Hnd) as (bs1' & b' & Hv' & Hnd1 & Hf & Hvs & _).
+  rewrite Ev in Hv'. injection Hv' as <- ->.
+  (* ballots of other decisions stay small *)
+  assert (Hoth : Forall (fun b => bid b <> id -> small a b) bs1).
+  { eapply vote_forall; [exact Ev| |].
+    - eapply Forall_impl; [exact Hsm|]. auto.
+    - intros vs _ Hne. cbn [bid] in Hne. congruence. }
+  rewrite Forall_forall in Hoth.
+  assert (Hsame : forall b, b ∈ bs1 -> bid b = id -> b = b').
+  { intros b Hb Hi. pose proof (find_id_unique _ _ _ Hnd1 Hb Hi) as H. congruence. }
+  (* size of the tally before this vote *)
+  assert (Hlive : Z.of_nat (length (stored_tally bs id h)) < threshold a).
+  { unfold stored_tally. rewrite tlive_abs. destruct (find_id id bs) as [b|] eqn:Eb; cbn [live_b].
+    - apply find_id_some in Eb as [Hin _]. rewrite Forall_forall in Hsm.
+      destruct (expired h b); [|apply Hsm; exact Hin].
+      cbn [length]. rewrite threshold_thr. unfold thr. Z.div_mod_to_equations. lia.
+    - cbn [length]. rewrite threshold_thr. unfold thr. Z.div_mod_to_equations. lia. }
+  destruct (Z.of_nat (length (tally_incl (abs_box bs) id from h)) <? threshold a) eqn:Elt.
+  - injection Hc as <- <-. split; [|discriminate].
+    apply Forall_forall. intros b Hb. destruct (decide (bid b = id)) as [Hi|Hi]; [|auto].
+    rewrite (Hsame b Hb Hi). unfold small. rewrite Hvs. lia.
+  - rewrite (remove_votes_found _ _ _ Hf) in Hc. cbn [obind] in Hc. injection Hc as <- <-. split.
+    + apply Forall_forall. intros b Hb.
+      assert (Hb1 : b ∈ bs1) by (eapply sublist_elem; [apply remove_first_sublist|exact Hb]).
+      destruct (decide (bid b = id)) as [Hi|Hi]; [|auto]. exfalso.
+      pose proof (remove_first_find_same id bs1 Hnd1) as Hnone. apply find_id_none in Hnone.
+      apply Hnone. apply elem_of_list_fmap. exists b. split; [symmetry; exact Hi|exact Hb].
+    + intros _. unfold tally_incl in *. fold (stored_tally bs id h) in *.
+      destruct (existsb (bytes_eqb from) (stored_tally bs id h)) eqn:Ex; [lia|].
+      apply existsb_bytes_false in Ex. split; [exact Ex|]. rewrite app_length in *. cbn [length] in *. lia.
+Qed.
+
+Section Exact.
+  Variable valid_pub : bytes -> bool.
+  Variable std_acc : bytes -> bytes.
+  Variable del_id : bytes -> bytes.
+  Notation nstep := (nstep valid_pub std_acc del_id).
+  Notation nrun_from := (nrun_from valid_pub std_acc del_id).
+
+  Definition fixed_inv (A : list bytes) (s : nstate) : Prop :=
+    alphabet s = A /\ NoDup (map bid (box s)) /\ Forall (small A) (box s).
+
+  Lemma nstep_fixed A s c o :
+    fixed_inv A s -> keeps_list A (c, o) ->
+    fixed_inv A (fst (fst (nstep s (c, o)))) /\
+    (snd (fst (nstep s (c, o))) = Some true ->
+     forall id, decision_id del_id c o = Some id ->
+     exists k, alphabet_invoker valid_pub c s = Halt k /\ k ∉ stored_tally (box s) id (height c) /\
+               Z.of_nat (length (tally_incl (abs_box (box s)) id k (height c))) = threshold A).
+  Proof.
+    intros (Ha & Hnd & Hsm) Hk. unfold NeoFSVote.nstep, gstep. cbn [fst snd].
+    destruct (decision_id del_id c o) as [id|] eqn:Hd.
+    - rewrite (gexec_gated _ _ _ collect c s o id Hd). unfold gated_nf.
+      destruct (alphabet_invoker valid_pub c s) as [k|] eqn:Ek; cbn [obind fst snd].
+      2:{ split; [repeat split; assumption|discriminate]. }
+      destruct (args_ok valid_pub o); cbn [fst snd].
+      2:{ split; [repeat split; assumption|discriminate]. }
+      destruct (collect (alphabet s) (box s) id k (height c)) as [[b1 go]|] eqn:Ec; cbn [obind fst snd].
+      2:{ split; [repeat split; assumption|discriminate]. }
+      rewrite Ha in Ec. destruct (collect_exact _ _ _ _ _ _ _ Hnd Hsm Ec) as (Hnd1 & Hsm1 & Hgo).
+      destruct go; cbn [fst snd].
+      + destruct (action_ok c s o); cbn [fst snd].
+        2:{ split; [repeat split; assumption|discriminate]. }
+        split.
+        * unfold fixed_inv. rewrite (effect_box del_id c s b1 o id Hd). split; [|auto].
+          destruct o; cbn [effect alphabet]; try exact Ha; try discriminate.
+          exact (Hk _ _ eq_refl).
+        * intros _ id' Hid'. injection Hid' as <-. exists k. destruct (Hgo eq_refl). auto.
+      + split; [|discriminate]. unfold fixed_inv, set_box. cbn [alphabet box]. auto.
+    - pose proof (gexec_ungated valid_pub std_acc del_id collect c s o Hd) as H.
+      destruct (gexec valid_pub std_acc del_id collect c s o) as [[[s' f] ns]|]; cbn [fst snd].
+      + destruct H as (Hb & Hal & _). split; [|intros _ id' Hid'; discriminate].
+        unfold fixed_inv. rewrite Hb, Hal. auto.
+      + split; [repeat split; assumption|discriminate].
+  Qed.
+
+  Lemma run_fixed A cfg g ops :
+    Forall (keeps_list A) ops -> fixed_inv A (fst (nrun_from (ninit A cfg g) ops)).
+  Proof.
+    apply (run_inv valid_pub std_acc del_id (fixed_inv A) (keeps_list A)).
+    - split; [reflexivity|]. split; constructor.
+    - intros s [c o] Hs Hco. apply nstep_fixed; assumption.
+  Qed.
+
+  (** Ballots of other decisions under one vote-gated invocation. *)
+  Lemma nstep_others s c o id :
+    decision_id del_id c o = Some id -> NoDup (map bid (box s)) ->
+    let bs' := box (fst (fst (nstep s (c, o)))) in
+    others id bs' = others id (box s) \/ others id bs' = others id (live_list (height c) (box s)).
+  Proof.
+    intros Hd Hnd. unfold NeoFSVote.nstep, gstep. cbn [fst snd].
+    rewrite (gexec_gated _ _ _ collect c s o id Hd). unfold gated_nf.
+    destruct (alphabet_invoker valid_pub c s) as [k|] eqn:Ek; cbn [obind fst]; [|auto].
+    destruct (args_ok valid_pub o); cbn [fst]; [|auto].
+    destruct (collect (alphabet s) (box s) id k (height c)) as [[b1 go]|] eqn:Ec; cbn [obind fst]; [|auto].
+    destruct (collect_others _ _ _ _ _ _ _ Hnd Ec) as [H1 H2].
+    assert (Hb1 : others id b1 = others id (box s) \/ others id b1 = others id (live_list (height c) (box s))).
+    { destruct (decide (k ∈ stored_tally (box s) id (height c))); auto. }
+    destruct go; cbn [fst]; [|exact Hb1].
+    destruct (action_ok c s o); cbn [fst]; [|auto].
+    rewrite (effect_box del_id c s b1 o id Hd). exact Hb1.
+  Qed.
+
+  (** Rejection of invocations that no stored Alphabet key witnesses. *)
+  Lemma nstep_stranger s c o :
+    decision_id del_id c o <> None -> (forall k, k ∈ alphabet s -> k ∉ witnessed c) ->
+    nstep s (c, o) = (s, None, []).
+  Proof.
+    intros Hd Hs. destruct (decision_id del_id c o) as [id|] eqn:E; [|congruence].
+    unfold NeoFSVote.nstep, gstep. cbn [fst snd].
+    rewrite (gexec_gated _ _ _ collect c s o id E). unfold gated_nf.
+    rewrite (alphabet_invoker_stranger valid_pub c s Hs). reflexivity.
+  Qed.
+End Exact.
+
+(** * 14. Statements about histories, in the form used by Props/C17.v *)
+
+Lemma end_height_bound h0 ops h :
+  h0 <= h -> (forall co, co ∈ ops -> height (fst co) <= h) -> end_height h0 ops <= h.
+Proof.
+  revert h0. induction ops as [|x r IH]; intros h0 H0 Hall; [exact H0|].
+  cbn [end_height]. apply IH.
+  - apply Hall. apply elem_of_cons. auto.
+  - intros co Hco. apply Hall. apply elem_of_cons. auto.
+Qed.
+
+Lemma tally_incl_ok (U : bytes -> Prop) bs id k h :
+  Forall (voters_ok U) bs -> U k ->
+  NoDup (tally_incl (abs_box bs) id k h) /\ forall x, x ∈ tally_incl (abs_box bs) id k h -> U x.
+Proof.
+  intros Hall Hk. unfold tally_incl. rewrite tlive_abs.
+  set (vs := match live_b h (find_id id bs) with Some b => voters b | None => [] end).
+  assert (Hvs : NoDup vs /\ forall x, x ∈ vs -> U x).
+  { subst vs. destruct (find_id id bs) as [b|] eqn:Ef; cbn [live_b].
+    - apply find_id_some in Ef as [Hin _]. rewrite Forall_forall in Hall.
+      destruct (expired h b); [split; [apply NoDup_nil_2|intros x Hx; inversion Hx]|exact (Hall b Hin)].
+    - split; [apply NoDup_nil_2|intros x Hx; inversion Hx]. }
+  destruct Hvs as [Hn Hu].
+  destruct (existsb (bytes_eqb k) vs) eqn:Ex; [split; assumption|].
+  apply existsb_bytes_false in Ex. split.
+  - apply NoDup_app. split; [exact Hn|]. split; [|apply NoDup_singleton].
+    intros x Hx Hx'. apply elem_of_list_singleton in Hx'. subst x. contradiction.
+  - intros x Hx. apply elem_of_app in Hx as [Hx|Hx]; [auto|].
+    apply elem_of_list_singleton in Hx. subst x. exact Hk.
+Qed.
+
+Section History.
+  Variable valid_pub : bytes -> bool.
+  Variable std_acc : bytes -> bytes.
+  Variable del_id : bytes -> bytes.
+  Notation nstep := (nstep valid_pub std_acc del_id).
+  Notation nrun_from := (nrun_from valid_pub std_acc del_id).
+  Notation trun_from := (trun_from valid_pub std_acc del_id).
+
+  Lemma history_gated h0 keys cfg g ops c o id :
+    heights_from h0 (ops ++ [(c, o)]) -> decision_id del_id c o = Some id ->
+    let s := fst (nrun_from (ninit keys cfg g) ops) in
+    let T := box (fst (trun_from (tinit keys cfg g) ops)) in
+    gated_outcome valid_pub c s T o id
+      (fst (fst (nstep s (c, o)))) (snd (fst (nstep s (c, o)))) (snd (nstep s (c, o))).
+  Proof.
+    intros Hh Hd s T. apply nstep_gated; [exact Hd|].
+    apply (reach_rel valid_pub std_acc del_id h0 keys cfg g ops c o Hh).
+  Qed.
+
+  (** Reading the three outcomes as an equivalence. *)
+  Lemma gated_outcome_iff c s tb o id s' r ns :
+    gated_outcome valid_pub c s tb o id s' r ns ->
+    (r = Some true <->
+     exists k, alphabet_invoker valid_pub c s = Halt k /\ args_ok valid_pub o = true /\
+               thr (Z.of_nat (length (alphabet s))) <= Z.of_nat (length (tally_incl tb id k (height c))) /\
+               action_ok c s o = true) /\
+    (r = Some true -> s' = effect c s (box s') o /\ ns = notifs_of o /\ find_id id (box s') = None) /\
+    (r <> Some true -> ns = [] /\ same_but_box s' s) /\
+    (r = None -> s' = s).
+  Proof.
+    intros [(-> & -> & -> & Hwhy)|[(-> & -> & Hsame & k & Hk & Ha & Hlt & _)|(-> & -> & Hs' & Hnone & k & Hk & Ha & Hge & Hact & _)]].
+    - split; [split; [discriminate|]|].
+      + intros (k & Hk & Ha & Hge & Hact).
+        destruct Hwhy as [Hf|[Hf|(k' & Hk' & _ & Hf)]]; congruence.
+      + split; [discriminate|]. split; [intros _; split; [reflexivity|repeat split; reflexivity]|reflexivity].
+    - split; [split; [discriminate|]|].
+      + intros (k' & Hk' & _ & Hge & _). rewrite Hk in Hk'. injection Hk' as <-. lia.
+      + split; [discriminate|]. split; [auto|discriminate].
+    - split; [split; [intros _; exists k; auto|reflexivity]|].
+      split; [auto|]. split; [congruence|discriminate].
+  Qed.
+End History.
+
+(** * 15. The history theorems of Props/C17.v in projection form *)
+
+Section Theorems.
+  Variable vp : bytes -> bool.
+  Variable sa : bytes -> bytes.
+  Variable di : bytes -> bytes.
+  Notation nstep := (nstep vp sa di).
+  Notation nrun_from := (nrun_from vp sa di).
+  Notation trun_from := (trun_from vp sa di).
+
+  Lemma refines_tally_thm h0 keys cfg g ops :
+    heights_from h0 ops ->
+    let sl := nrun_from (ninit keys cfg g) ops in
+    let tl := trun_from (tinit keys cfg g) ops in
+    snd sl = snd tl /\
+    same_but_box (fst sl) (fst tl) /\
+    NoDup (map bid (box (fst sl))) /\
+    forall id h, h0 <= h -> (forall co, co ∈ ops -> height (fst co) <= h) ->
+      stored_tally (box (fst sl)) id h = tlive (box (fst tl)) id h.
+  Proof.
+    intros Hh sl tl.
+    destruct (run_refines vp sa di h0 _ _ ops (init_rel h0 keys cfg g) Hh) as [Hl [Hs [Hn He]]].
+    split; [exact Hl|]. split; [exact Hs|]. split; [exact Hn|].
+    intros id h H0 Hall. apply tlive_eq. eapply tb_eq_mono; [|exact He].
+    apply end_height_bound; assumption.
+  Qed.
+
+  Lemma repeated_vote_thm h0 keys cfg g ops c o id :
+    heights_from h0 (ops ++ [(c, o)]) -> decision_id di c o = Some id ->
+    let s := fst (nrun_from (ninit keys cfg g) ops) in
+    let T := box (fst (trun_from (tinit keys cfg g) ops)) in
+    forall k, alphabet_invoker vp c s = Halt k -> k ∈ tlive T id (height c) ->
+    tally_incl T id k (height c) = tlive T id (height c) /\
+    (snd (fst (nstep s (c, o))) = Some false -> fst (fst (nstep s (c, o))) = s).
+  Proof.
+    intros Hh Hd s T k Hk Hin. split.
+    - unfold tally_incl. apply existsb_bytes in Hin. rewrite Hin. reflexivity.
+    - pose proof (history_gated vp sa di h0 keys cfg g ops c o id Hh Hd) as Hg. cbn zeta in Hg. fold s T in Hg.
+      destruct (nstep s (c, o)) as [[s' r] ns]. cbn [fst snd] in *. intros ->.
+      destruct Hg as [(Hr & _)|[(_ & _ & Hsame & k' & Hk' & _ & _ & _ & Hrep & _)|(Hr & _)]]; try discriminate.
+      rewrite Hk in Hk'. injection Hk' as <-. specialize (Hrep Hin).
+      destruct Hsame as (H1 & H2 & H3 & H4). destruct s', s. cbn in *. congruence.
+  Qed.
+
+  Lemma vote_counted_thm h0 keys cfg g ops c o id :
+    heights_from h0 (ops ++ [(c, o)]) -> decision_id di c o = Some id ->
+    let s := fst (nrun_from (ninit keys cfg g) ops) in
+    let T := box (fst (trun_from (tinit keys cfg g) ops)) in
+    snd (fst (nstep s (c, o))) = Some false ->
+    exists k, alphabet_invoker vp c s = Halt k /\
+      stored_tally (box (fst (fst (nstep s (c, o))))) id (height c) = tally_incl T id k (height c) /\
+      Z.of_nat (length (tally_incl T id k (height c))) < thr (Z.of_nat (length (alphabet s))).
+  Proof.
+    intros Hh Hd s T.
+    pose proof (history_gated vp sa di h0 keys cfg g ops c o id Hh Hd) as Hg. cbn zeta in Hg. fold s T in Hg.
+    destruct (nstep s (c, o)) as [[s' r] ns]. cbn [fst snd] in *. intros ->.
+    destruct Hg as [(Hr & _)|[(_ & _ & _ & k & Hk & _ & Hlt & Hst & _)|(Hr & _)]]; try discriminate.
+    exists k. auto.
+  Qed.
+
+  Lemma fires_once_thm h0 keys cfg g ops c o id :
+    heights_from h0 (ops ++ [(c, o)]) -> decision_id di c o = Some id ->
+    let s' := fst (nrun_from (ninit keys cfg g) (ops ++ [(c, o)])) in
+    let T' := box (fst (trun_from (tinit keys cfg g) (ops ++ [(c, o)]))) in
+    snd (fst (nstep (fst (nrun_from (ninit keys cfg g) ops)) (c, o))) = Some true ->
+    forall h k, height c <= h ->
+      stored_tally (box s') id h = [] /\ tlive T' id h = [] /\ tally_incl T' id k h = [k].
+  Proof.
+    intros Hh Hd s' T' Hfire h k Hle.
+    assert (Hst : stored_tally (box s') id h = []).
+    { subst s'. rewrite nrun_snoc_state.
+      pose proof (history_gated vp sa di h0 keys cfg g ops c o id Hh Hd) as Hg. cbn zeta in Hg.
+      destruct (nstep _ (c, o)) as [[s1 r] ns]. cbn [fst snd] in *. subst r.
+      destruct Hg as [(Hr & _)|[(Hr & _)|(_ & _ & _ & Hnone & _)]]; try discriminate.
+      unfold stored_tally. rewrite tlive_abs, Hnone. reflexivity. }
+    assert (Hrel : tlive T' id h = stored_tally (box s') id h).
+    { symmetry. apply tlive_eq.
+      destruct (run_refines vp sa di h0 _ _ _ (init_rel h0 keys cfg g) Hh) as [_ [_ [_ He]]].
+      rewrite end_height_snoc in He. eapply tb_eq_mono; [|exact He]. exact Hle. }
+    rewrite Hst in Hrel. split; [exact Hst|]. split; [exact Hrel|].
+    unfold tally_incl. rewrite Hrel. reflexivity.
+  Qed.
+
+  Lemma stale_thm h0 keys cfg g ops c o id :
+    heights_from h0 (ops ++ [(c, o)]) -> decision_id di c o = Some id ->
+    (forall co, co ∈ ops -> decision_id di (fst co) (snd co) = Some id ->
+                height c - height (fst co) > 20) ->
+    let s := fst (nrun_from (ninit keys cfg g) ops) in
+    let T := box (fst (trun_from (tinit keys cfg g) ops)) in
+    (forall k, tally_incl T id k (height c) = [k]) /\
+    (snd (fst (nstep s (c, o))) = Some true -> length (alphabet s) = 1%nat) /\
+    (snd (fst (nstep s (c, o))) = Some false ->
+     exists k, alphabet_invoker vp c s = Halt k /\
+               stored_tally (box (fst (fst (nstep s (c, o))))) id (height c) = [k]).
+  Proof.
+    intros Hh Hd Hold s T.
+    assert (Hempty : tlive T id (height c) = []).
+    { rewrite <- (stale_stored vp sa di keys cfg g ops id (height c) Hold). symmetry.
+      apply tlive_eq. apply (reach_rel vp sa di h0 keys cfg g ops c o Hh). }
+    assert (Hone : forall k, tally_incl T id k (height c) = [k]).
+    { intros k. unfold tally_incl. rewrite Hempty. reflexivity. }
+    pose proof (history_gated vp sa di h0 keys cfg g ops c o id Hh Hd) as Hg. cbn zeta in Hg. fold s T in Hg.
+    destruct (nstep s (c, o)) as [[s' r] ns]. cbn [fst snd] in *.
+    split; [exact Hone|]. split.
+    - intros ->. destruct Hg as [(Hr & _)|[(Hr & _)|(_ & _ & _ & _ & k & Hk & _ & Hge & _)]]; try discriminate.
+      rewrite Hone in Hge. cbn [length] in Hge.
+      apply alphabet_invoker_member in Hk as [Hm _].
+      pose proof (thr_one (Z.of_nat (length (alphabet s)))) as H1.
+      destruct (alphabet s) as [|x [|y l]]; [inversion Hm|reflexivity|cbn [length] in *; lia].
+    - intros ->. destruct Hg as [(Hr & _)|[(_ & _ & _ & k & Hk & _ & _ & Hst & _)|(Hr & _)]]; try discriminate.
+      exists k. rewrite Hst, Hone. auto.
+  Qed.
+
+  Lemma quorum_thm h0 A cfg g ops c o id :
+    heights_from h0 (ops ++ [(c, o)]) -> decision_id di c o = Some id ->
+    Forall (keeps_list A) ops ->
+    let s := fst (nrun_from (ninit A cfg g) ops) in
+    let T := box (fst (trun_from (tinit A cfg g) ops)) in
+    snd (fst (nstep s (c, o))) = Some true ->
+    alphabet s = A /\
+    exists k, alphabet_invoker vp c s = Halt k /\
+      let vs := tally_incl T id k (height c) in
+      NoDup vs /\ vs ⊆ A /\ Z.of_nat (length vs) = thr (Z.of_nat (length A)) /\
+      k ∉ tlive T id (height c).
+  Proof.
+    intros Hh Hd Hkeep s T Hfire.
+    pose proof (run_fixed vp sa di A cfg g ops Hkeep) as Hinv. fold s in Hinv.
+    pose proof (reach_rel vp sa di h0 A cfg g ops c o Hh) as [_ [_ Heq]]. fold s T in Heq.
+    destruct (run_voters vp sa di (fun k => k ∈ A) A cfg g ops (fun k H => H)
+                (Forall_impl _ _ _ Hkeep (keeps_list_within A))) as [_ Hvok]. fold s in Hvok.
+    assert (Hex : exists k, alphabet_invoker vp c s = Halt k /\ k ∉ stored_tally (box s) id (height c) /\
+                            Z.of_nat (length (tally_incl (abs_box (box s)) id k (height c))) = threshold A).
+    { destruct Hinv as (Ha & Hnd & Hsm).
+      unfold NeoFSVote.nstep, gstep in Hfire. cbn [fst snd] in Hfire.
+      rewrite (gexec_gated vp sa di collect c s o id Hd) in Hfire. unfold gated_nf in Hfire.
+      destruct (alphabet_invoker vp c s) as [k|] eqn:Ek; cbn [obind fst snd] in Hfire; [|discriminate].
+      destruct (args_ok vp o); cbn [fst snd] in Hfire; [|discriminate].
+      destruct (collect (alphabet s) (box s) id k (height c)) as [[b1 go]|] eqn:Ec; cbn [obind fst snd] in Hfire; [|discriminate].
+      destruct go; cbn [fst snd] in Hfire; [|discriminate].
+      rewrite Ha in Ec. destruct (collect_exact _ _ _ _ _ _ _ Hnd Hsm Ec) as (_ & _ & Hgo).
+      exists k. destruct (Hgo eq_refl). auto. }
+    destruct Hinv as (Ha & _). split; [exact Ha|].
+    destruct Hex as (k & Hk & Hnew & Hlen). exists k. split; [exact Hk|].
+    rewrite <- (tally_incl_eq _ _ _ id k Heq). unfold stored_tally in Hnew.
+    rewrite <- (tlive_eq _ _ _ id Heq).
+    apply alphabet_invoker_member in Hk as [Hm _]. rewrite Ha in Hm.
+    destruct (tally_incl_ok (fun k => k ∈ A) (box s) id k (height c) Hvok Hm) as [Hn Hsub].
+    split; [exact Hn|]. split; [exact Hsub|]. split; [|exact Hnew].
+    rewrite Hlen. apply threshold_thr.
+  Qed.
+
+End Theorems.
+
+Lemma quorums_intersect_thm (A q1 q2 : list bytes) :
+  NoDup q1 -> NoDup q2 -> q1 ⊆ A -> q2 ⊆ A ->
+  thr (Z.of_nat (length A)) <= Z.of_nat (length q1) ->
+  thr (Z.of_nat (length A)) <= Z.of_nat (length q2) ->
+  exists k, k ∈ q1 /\ k ∈ q2.
+Proof.
+  intros N1 N2 S1 S2 H1 H2. apply (lists_intersect A); auto.
+  destruct A as [|a A'].
+  - destruct q1; [cbn in H1; unfold thr in H1; cbn in H1; lia|].
+    exfalso. eapply not_elem_of_nil. apply S1. apply elem_of_cons. left. reflexivity.
+  - pose proof (thr_bounds (Z.of_nat (length (a :: A')))) as Hb. cbn [length] in *. lia.
 Qed.
